@@ -12,10 +12,23 @@
   * `wf_single_def`       : every temporary of a function of a well-formed module has exactly one
                             definition (`Nodup` of the list of all definitions).
   * `wf_labels_static`    : every jump of every block (reachable or not) names a block.
+
+  Classes (lemmas in `Lemmas/QbeCls*.lean`, `wf` unchanged):
+  * `wf_classes_static`   : what the class checks of `wf` establish for every instruction, jump, phi
+                            and direct call of every function (`Cls.FuncCls`).
+  * `wf_classes_preserved`: one step of a well-formed module preserves the typing invariant
+                            `Cls.StackT` (every bound temporary holds a value of its static class).
+  * `wf_sound_classes_at` : a run that ends in a class mismatch (`Cls.ClassStuck`) stopped at an
+                            indirect call.
+  * `wf_sound_classes_partial`, `wf_sound_full_partial`, `wf_sound_classes_from`
+                          : no run of a module without indirect calls ends in a class mismatch
+                            (external functions: hypothesis `ExtOk`; arguments: `Cls.ArgsOk`).
+  * `wf_sound_classes_full` : the statement without the restriction (a `def … : Prop`; false).
 -/
 import CprocVerif.Spec.Qbe
 import CprocVerif.Spec.QbeWf
 import CprocVerif.Lemmas.QbeClsStep
+import CprocVerif.Lemmas.QbeClsEx
 
 namespace CprocVerif.C03
 open CprocVerif.Qbe
@@ -1125,5 +1138,153 @@ theorem wf_sound_classes_from (m : Module) (h : wf m = .ok ()) (hd : DirectCalls
   have hc := wf_ctx h
   exact Cls.no_indirectSite hd (Cls.lastState_typed hc hext fuel hs)
     (Cls.run_typed hc hext fuel hs hstuck)
+
+/-! ## Non-vacuity of the class theorems
+
+  The example module `Cls.exMod` (`Lemmas/QbeClsEx.lean`): `$g(w %a, d %x)` with `w`, `d`, `s`
+  temporaries, and `$main(l %p)` with a call of `$g` with mixed `w`/`d` arguments, a `jnz`, and an
+  `l` phi.  `wf` itself cannot be evaluated by the kernel on a module with a function
+  (`String.hash` is opaque), so acceptance is shown for the class checks `wf` performs on each
+  instruction, jump and phi source (`checkIns`, `checkJump`, `argOk`, with the real class map and
+  signature table of the module), and rejection is shown for `wf` itself through
+  `wf_classes_static`. -/
+
+open Cls in
+/-- Every instruction of `$g` (w, d and s temporaries) passes the class checks of `wf`. -/
+example : ∀ i ∈ (exG.blocks[0]!).ins.toList,
+    checkIns (sigsOf exMod) {} (tcOf exG) i = .ok () := by
+  show ∀ i ∈ [Ins.op (some ("b", .w)) .add [.tmp "a", .int 1],
+              .op (some ("y", .d)) .add [.tmp "x", .fd 1],
+              .op (some ("z", .s)) .truncd [.tmp "y"]], _
+  simp only [List.mem_cons, List.not_mem_nil, or_false, forall_eq_or_imp, forall_eq, checkIns,
+    undefinedTmp, Ins.operands, Op.sig, argsOk, argOk, ex_tcG, ex_tcG_contains, isInt,
+    List.findSome?, Option.map]
+  simp
+
+open Cls in
+/-- The `ret %b` of `$g` agrees with its return type `w`. -/
+example : checkJump exG (FuncInfo.of exG) (tcOf exG) (.ret (some (.tmp "b"))) = .ok () := by
+  have hr : exG.ret = some (.base .w) := rfl
+  unfold checkJump
+  simp only [Jump.targets, List.forIn_nil, Jump.operands, undefinedTmp, List.findSome?,
+    ex_tcG_contains, hr, argOk, ex_tcG, Ty.cls]
+  simp [bind, Except.bind, pure, Except.pure, errIf]
+
+open Cls in
+/-- The call in `$main`, with mixed `w`/`d` arguments and a `w` result, agrees with the signature
+    of `$g`. -/
+example : checkIns (sigsOf exMod) {} (tcOf exMain)
+    (.call (some ("r", .base .w)) (.glob "g" false) [(.base .w, .int 1), (.base .d, .fd 2)] none)
+    = .ok () := by
+  have hs : exG.sig = ⟨some (.base .w), [.base .w, .base .d], false⟩ := rfl
+  simp only [checkIns, checkCall, Ins.operands, undefinedTmp, List.findSome?, List.map, argOk,
+    ex_sigs, hs, errIf, tyDefined, Ty.cls, tyAgree]
+  simp [bind, Except.bind, pure, Except.pure, tysAgree, tyAgree, Ty.cls]
+
+open Cls in
+/-- `jnz %r` on the `w` result of the call. -/
+example : checkJump exMain (FuncInfo.of exMain) (tcOf exMain) (.jnz (.tmp "r") "t" "e")
+    = .ok () := by
+  unfold checkJump
+  simp only [Jump.targets, List.forIn_cons, List.forIn_nil, ex_labelsMain, Jump.operands,
+    undefinedTmp, List.findSome?, ex_tcMain_contains, argOk, ex_tcMain]
+  simp [bind, Except.bind, pure, Except.pure, errIf]
+
+open Cls in
+/-- Both sources of the phi `%v =l phi @s %p, @t %q` have class `l`. -/
+example : ∀ s ∈ [("s", Val.tmp "p"), ("t", Val.tmp "q")], argOk (tcOf exMain) .l s.2 = true := by
+  simp [argOk, ex_tcMain]
+
+open Cls in
+/-- A class error is rejected by the instruction check: `truncd` of the `w` temporary `%b`. -/
+example : checkIns (sigsOf exMod) {} (tcOf exG) (.op (some ("z", .s)) .truncd [.tmp "b"])
+    ≠ .ok () := by
+  simp only [checkIns, undefinedTmp, Ins.operands, Op.sig, argsOk, argOk, ex_tcG, ex_tcG_contains,
+    List.findSome?, Option.map]
+  simp
+
+open Cls in
+/-- A call whose argument types differ from the callee's parameter types is rejected. -/
+example : checkIns (sigsOf exMod) {} (tcOf exMain)
+    (.call (some ("r", .base .w)) (.glob "g" false) [(.base .w, .int 1), (.base .w, .int 2)] none)
+    ≠ .ok () := by
+  have hs : exG.sig = ⟨some (.base .w), [.base .w, .base .d], false⟩ := rfl
+  simp only [checkIns, checkCall, Ins.operands, undefinedTmp, List.findSome?, List.map, argOk,
+    ex_sigs, hs, errIf, tyDefined, Ty.cls, tyAgree]
+  simp [bind, Except.bind, pure, Except.pure, tysAgree, tyAgree, Ty.cls]
+
+/-- `function $bad(w %a) { @s  %z =s truncd %a   ret }` — `truncd` needs a `d` operand. -/
+def exBad : Func :=
+  { «export» := false, ret := none, name := "bad", params := [(.base .w, "a")], variadic := false,
+    blocks := #[{ label := "s", phis := [],
+                  ins := #[.op (some ("z", .s)) .truncd [.tmp "a"]], term := some (.ret none) }] }
+
+/-- **`wf` rejects a module with a class error.** -/
+example : wf ⟨#[.func exBad]⟩ ≠ .ok () := by
+  intro h
+  have hc := wf_classes_static _ h exBad (by simp [Module.funcs])
+  obtain ⟨ks, hks, hargs⟩ := (hc.block 0 _ rfl).ins
+    (.op (some ("z", .s)) .truncd [.tmp "a"]) (by simp [exBad])
+  have hks' : ks = [.d] := by simpa [Op.sig] using hks.symm
+  subst hks'
+  have htc : ∀ t : String, (Cls.tcOf exBad)[t]? =
+      if "z" = t then some .s else if "a" = t then some .w else none := by
+    intro t
+    simp [Cls.tcOf, exBad, Func.allDefs, Block.defsList, Ty.cls, Std.HashMap.getElem?_insert]
+  simp only [argsOk, argOk, htc] at hargs
+  simp at hargs
+
+/-- The hypotheses of `wf_sound_classes_partial` other than `wf` hold for the example module:
+    all calls are direct, … -/
+example : DirectCalls Cls.exMod := by
+  intro f hf b hb res cv args va hi
+  rw [Cls.exMod_funcs] at hf
+  simp only [List.mem_cons, List.not_mem_nil, or_false] at hf
+  rcases hf with rfl | rfl
+  · simp [Cls.exG] at hb
+    subst hb
+    simp at hi
+  · simp [Cls.exMain] at hb
+    rcases hb with rfl | rfl | rfl
+    · simp at hi
+      exact ⟨"g", false, hi.2.1⟩
+    · simp at hi
+    · simp at hi
+
+/-- … the empty table of external functions satisfies `ExtOk`, … -/
+example (m : Module) : ExtOk m noExt := by
+  intro f _ b _ res cv args va _ name avs mem _ _ _ _
+  trivial
+
+/-- … and an `l` argument fits `$main(l %p)`. -/
+example : Cls.ArgsOk Cls.exMain [(.base .l, ⟨.l, 16⟩)] :=
+  ⟨by decide, fun _ => rfl, by decide, by decide⟩
+
+/-- So, given `wf`, the theorem applies to it. -/
+example (h : wf Cls.exMod = .ok ()) (hd : DirectCalls Cls.exMod) (fuel : Nat) :
+    ¬ Cls.ClassStuck (runFunc (Prog.ofModule Cls.exMod) noExt "main"
+      [(.base .l, ⟨.l, 16⟩)] fuel).end := by
+  refine wf_sound_classes_partial _ h hd noExt (fun f _ b _ res cv args va _ name avs mem _ _ _ _ => trivial)
+    "main" _ ?_ fuel
+  intro f hf hname
+  rw [Cls.exMod_funcs] at hf
+  simp only [List.mem_cons, List.not_mem_nil, or_false] at hf
+  rcases hf with rfl | rfl
+  · exact absurd hname (by decide)
+  · exact ⟨by decide, fun _ => rfl, by decide, by decide⟩
+
+/-- The built-in externals satisfy the assumption at a call `call $outw(w %x)`: a `w`, `l` or
+    literal argument is printed, an undefined call result is reported as such (not a class
+    error). -/
+example (a : RVal) (mem : Mem) (h : Cls.kindOk .w a.kind = true) :
+    match builtinExt "outw" [a] mem with
+    | none => True
+    | some (.error e) => ¬ Cls.ClsErr e
+    | some (.ok _) => True := by
+  have := Cls.safe_asW h
+  simp only [builtinExt]
+  cases hx : a.asW with
+  | error e => rw [hx] at this; exact this
+  | ok x => trivial
 
 end CprocVerif.C03
